@@ -324,3 +324,16 @@ func (o *Oracle) Violated(soft []SoftLin, m []bool) int {
 	}
 	return k
 }
+
+// parseIntsLine reads a line of space-separated integers (an answer of the model driver).
+func parseIntsLine(s string) ([]int, error) {
+	var res []int
+	for _, t := range strings.Fields(s) {
+		v, err := strconv.Atoi(t)
+		if err != nil {
+			return nil, err
+		}
+		res = append(res, v)
+	}
+	return res, nil
+}
